@@ -70,7 +70,7 @@ def run_check(check, tier, registry):
     cspec = getattr(registry, "CHECK_TIERS", {}).get(check, {}).get(tier, {})
     budget = float(os.environ.get("VERIF_BUDGET_S", cspec.get("budget_s", spec["budget_s"])))
     phases = cspec.get("phases", spec["phases"])
-    _CFG["text"] = (f"workers={workers} budget_s={budget:.0f} phases="
+    _CFG["text"] = (f"workers={workers} cores={len(os.sched_getaffinity(0))} budget_s={budget:.0f} phases="
                     + ",".join(f"{e}:{sh:g}" for e, sh in phases))
     os.makedirs(os.path.join(VERIF, ".work"), exist_ok=True)
     workdir = tempfile.mkdtemp(prefix=f"{check}-{tier}-", dir=os.path.join(VERIF, ".work"))
